@@ -94,6 +94,13 @@ fn one_run(out: &mut Out, s: &Stream, outs: &[usize], to: Fmt, packets: &Packets
 	}
 	// The tighter statement (samples DemandDriven).
 	let (d, la) = tight(s.fmt);
+	let min_len = match s.fmt {
+		Fmt::Json => 1,
+		Fmt::Msgpack => 0,
+		_ => 4,
+	};
+	let spaced = s.ends.windows(2).all(|w| w[0] + min_len <= w[1]);
+	out.count(&format!("hyp.Spaced.{}.{}", s.fmt.name(), if spaced { "holds" } else { "MISSED" }));
 	let tbad = first_bad(d, la, &s.ends, outs, &r.trace);
 	out.eval("lag_tight", &key, n > d);
 	out.count(&format!("hyp.DemandDriven.{}.{}", s.fmt.name(), if tbad.is_none() { "holds" } else { "MISSED" }));
@@ -142,7 +149,7 @@ fn lag_part(out: &mut Out, rng: &mut Rng, thorough: bool) {
 			// size classes: small documents; a few big ones; scalar-free plain streams for the shape comparison
 			let shape_stream = si % 5 == 0;
 			let n = match si % 5 {
-				0 => rng.range(30, 60),
+				0 => rng.range(6, 24),
 				1 => rng.range(30, 300),
 				2 => rng.range(3, 40),
 				3 => rng.range(100, 300),
@@ -182,11 +189,12 @@ fn lag_part(out: &mut Out, rng: &mut Rng, thorough: bool) {
 						continue;
 					}
 					let packets = packetisation(rng, &s, kind);
-					// the loop model's trace is exactly determined for whole documents per
-					// packet (JSON / MessagePack: self-delimited documents smaller than
-					// the buffer) and, for YAML, for every packetisation of an ASCII stream
-					let small = s.singles.iter().all(|d| d.len() < 4000);
-					let model = shape_stream && small && matches!(kind, 0 | 1 | 2) && (f != Fmt::Yaml || kind != 1);
+					// the loop model's trace is exactly determined when every packet holds
+					// whole documents (JSON / MessagePack: self-delimited documents, stream
+					// smaller than the buffer) and, for YAML (documents are translated
+					// whole), for every packetisation
+					let small = s.singles.iter().all(|d| d.len() < 4000) && total < 8000;
+					let model = shape_stream && small && (f == Fmt::Yaml || matches!(kind, 0 | 1 | 2 | 7));
 					for detected in [false, true] {
 						if detected && !can_detect {
 							continue;
@@ -194,6 +202,27 @@ fn lag_part(out: &mut Out, rng: &mut Rng, thorough: bool) {
 						one_run(out, &s, &outs, to, &packets, detected, &Shape { model }, kind % 3 == 0);
 					}
 				}
+			}
+		}
+	}
+	// More small plain streams for the comparison with the loop model's trace.
+	for f in STREAM_FMTS {
+		for _ in 0..(if thorough { 40 } else { 8 }) {
+			let n = rng.range(3, 20) as usize;
+			let s = gen_stream(rng, f, &StreamOpts { n, scalar_free: true, first_collection: true, big: 0, big_size: 0, plain: true });
+			if s.ends.len() < 3 || s.data.len() >= 8000 {
+				out.count("skipped.shape_stream");
+				continue;
+			}
+			let to = *rng.pick(&STREAM_FMTS);
+			let Ok(outs) = out_ends(&s, to) else {
+				out.count("skipped.single_document_does_not_translate");
+				continue;
+			};
+			for kind in 0..8u64 {
+				let packets = packetisation(rng, &s, kind);
+				let model = f == Fmt::Yaml || matches!(kind, 0 | 1 | 2 | 7);
+				one_run(out, &s, &outs, to, &packets, false, &Shape { model }, false);
 			}
 		}
 	}
@@ -253,19 +282,29 @@ fn peak_of(doc: &[u8], count: usize, packet: usize, from: Option<Fmt>, to: Fmt) 
 	}
 }
 
-const ALLOWANCE: usize = 64 * 1024;
+/// Allowance for `peak(N2) - peak(N1)`: a constant plus twice the document size
+/// (the capacity of the growable buffer that holds one document lies between
+/// 1x and 2x the document depending on how the packets fall; a longer stream
+/// visits more of those alignments). Independent of N.
+fn allowance(doc_len: usize) -> usize {
+	16 * 1024 + 2 * doc_len
+}
 
 fn memory_part(out: &mut Out, rng: &mut Rng, thorough: bool) {
 	let sizes: &[usize] = if thorough { &[60, 700, 9_000, 120_000] } else { &[60, 9_000, 120_000] };
 	for f in STREAM_FMTS {
 		for &size in sizes {
 			let doc = doc_of_size(f, size);
-			let (n1, n2s): (usize, Vec<usize>) = match (thorough, size) {
-				(false, s) if s > 50_000 => (20, vec![200]),
-				(false, _) => (100, vec![1000]),
-				(true, s) if s > 50_000 => (20, vec![200, 1000]),
-				(true, s) if s > 5_000 => (100, vec![1000, 10_000]),
-				(true, _) => (100, vec![1000, 10_000, 100_000]),
+			// N1 is large enough for the stream to exceed every fixed-size buffer on
+			// the way (BufReader 8 KiB, libyaml 16 KiB raw + 48 KiB decoded, the
+			// capture buffer's read-ahead), so that peak(N1) already contains the
+			// constant part: at least 100 documents (20 big ones) and 256 KiB.
+			let n1 = (if size > 50_000 { 20 } else { 100 }).max(256 * 1024 / doc.len() + 1);
+			let n2s: Vec<usize> = match (thorough, size) {
+				(false, _) => vec![10 * n1],
+				(true, s) if s > 50_000 => vec![10 * n1, 50 * n1],
+				(true, s) if s > 5_000 => vec![10 * n1, 100 * n1],
+				(true, _) => vec![10 * n1, 100 * n1, 100_000.max(200 * n1)],
 			};
 			for to in STREAM_FMTS {
 				for detected in [false, true] {
@@ -293,18 +332,18 @@ fn memory_part(out: &mut Out, rng: &mut Rng, thorough: bool) {
 						for (n, p) in [(n1, p1.0), (n2, p2.0)] {
 							out.counters.insert(format!("memory.peak_bytes.{}.{}.{}.doc{}.N{}", f.name(), if detected { "detected" } else { "explicit" }, to.name(), doc.len(), n), p as u64);
 						}
-						out.count(&format!("memory.growth.{}", match growth { 0 => "0", 1..=1024 => "1-1024", 1025..=65536 => "1025-65536", _ => "MORE" }));
+						out.count(&format!("memory.growth.{}", match growth { 0 => "0", 1..=1024 => "1-1024", 1025..=16384 => "1025-16384", g if g <= allowance(doc.len()) => "16385-allowance", _ => "MORE" }));
 						if size == sizes[sizes.len() - 1] || size == sizes[0] {
 							out.sample(format!("peak heap: {what}: N={n1}: {} bytes, N={n2}: {} bytes ({} bytes written)", p1.0, p2.0, p2.1));
 						}
 						if p2.1 != p1.1 / n1 * n2 {
 							out.fail("concat_of_singles", "", format!("{what}: {} bytes written for N={n1} but {} for N={n2}", p1.1, p2.1));
 						}
-						if growth > ALLOWANCE {
+						if growth > allowance(doc.len()) {
 							out.fail(
 								"peak_flat_in_n",
 								"",
-								format!("{what}: peak live heap {} bytes for N={n1} but {} bytes for N={n2} (allowance {ALLOWANCE})", p1.0, p2.0),
+								format!("{what}: peak live heap {} bytes for N={n1} but {} bytes for N={n2} (allowance {})", p1.0, p2.0, allowance(doc.len())),
 							);
 						}
 					}
